@@ -33,7 +33,6 @@ package main
 
 import (
 	"fmt"
-	"math"
 	"math/big"
 	"math/rand"
 	"strconv"
@@ -186,14 +185,7 @@ func c09sCanonThreads(raw string) string {
 	} else {
 		return "?" + raw
 	}
-	switch {
-	case v > 0:
-		v = float32(math.Ceil(float64(v)*100) / 100)
-	case v < 0:
-		v = float32(math.Floor(float64(v)*100) / 100)
-	default:
-		v = 0
-	}
+	v = c09RoundUpTo(v, 100) // harness/c09.go: the one copy of parsenum.go roundUpTo
 	return fmt.Sprintf("%g", v)
 }
 
